@@ -83,8 +83,8 @@ Section Rec.
   Local Notation dr := (map (mrr_patch x) (entries_list (pl_dr r))).
   Local Notation ce := (map (mrr_patch x) (entries_list (pl_ce r))).
 
-  Lemma prr_infer_cont_112 vi : infer_version true V112 vi = V112.
-  Proof. unfold infer_version. destruct (_ || _); reflexivity. Qed.
+  Lemma prr_infer_cont_112 vi hr hc : infer_version2 true V112 vi hr hc = V112.
+  Proof. unfold infer_version2. destruct (_ || _); reflexivity. Qed.
 
   Theorem prr_rec_parse bd bc tail : record_list v dr = Some bd -> record_list v ce = Some bc -> pad_ok tail ->
     exists v0,
@@ -132,12 +132,27 @@ Section Rec.
       { intros o. destruct o; cbn [is_some]; [|discriminate]. rewrite Hpx. destruct v; try congruence; discriminate. }
       assert (Nid : forall a, a = None \/ a = Some (er_id (er_of v)) -> a <> Some EXT_ID_112).
       { intros a [-> | ->]; [discriminate|]. intros E. injection E as E. exact (prr_er_id_lo v Hlo E). }
-      assert (E0 : infer_version false V_unset
-                     (fold_left vi_step (annot v (entries_list FD) (zlen tail)) vi0) = V109).
-      { rewrite prr_infer_lo; [reflexivity|rewrite D1; apply N44|exact D3|exact D2|exact (Nid _ D4)]. }
-      rewrite E0. split; [intros _; destruct v; try congruence; reflexivity|].
-      unfold rr_parse. rewrite PC. do 2 f_equal.
-      rewrite prr_infer_lo; [destruct v; try congruence; reflexivity|rewrite C1; apply N44|exact C3|exact C2|exact (Nid _ C4)].
+      (* the RR entry: on exactly one side for 1.09, nowhere for 1.10 *)
+      assert (HpxC' : ce_record D = None -> rr_record C = None).
+      { intros Hn. destruct (rr_record C) as [k|] eqn:E; [|reflexivity].
+        assert (Hin : In (E_RR k) (entries_list C)) by (unfold entries_list; rewrite E, !in_app_iff; right; left; left; reflexivity).
+        rewrite (P12 Hn) in Hin. destruct Hin. }
+      cbn [prr_fix_E rr_record empty_entries is_some]. rewrite !orb_false_r.
+      set (vd := infer_version2 false V_unset (fold_left vi_step (annot v (entries_list FD) (zlen tail)) vi0)
+                   (is_some (rr_record D)) false).
+      assert (E0 : vd = if is_some (rr_record D) then V109 else V110).
+      { unfold vd. rewrite prr_infer_lo; [reflexivity|rewrite D1; apply N44|exact D3|exact D2|exact (Nid _ D4)]. }
+      split.
+      + intros Hn. rewrite E0. unfold prr_ver_of. specialize (HpxC' Hn).
+        destruct (is_v109 v) eqn:E9.
+        * destruct P5 as [[A _]|[_ B]]; [rewrite A; destruct v; try discriminate E9; reflexivity|congruence].
+        * destruct P5 as [A _]. rewrite A. destruct v; try congruence; try discriminate E9; reflexivity.
+      + unfold rr_parse. rewrite PC. do 2 f_equal. cbn [prr_fix_E rr_record].
+        rewrite prr_infer_lo; [|rewrite C1; apply N44|exact C3|exact C2|exact (Nid _ C4)].
+        rewrite E0. unfold prr_ver_of.
+        destruct (is_v109 v) eqn:E9.
+        * destruct P5 as [[A B]|[A B]]; rewrite A, B; destruct v; try discriminate E9; reflexivity.
+        * destruct P5 as [A B]. rewrite A, B. destruct v; try congruence; try discriminate E9; reflexivity.
   Qed.
 End Rec.
 
